@@ -67,6 +67,14 @@ func c19Populate(t *rapid.T, tdir string) (mustGo, nearMiss int) {
 			write("upload/" + n)
 		}
 	}
+	if rapid.IntRange(0, 3).Draw(t, "dataLikeDirs") == 0 {
+		// non-empty directories whose names look like data files: they cannot be removed (and are neither a
+		// counter file nor a report); the files sorting after them must still go
+		write("local/0000-00-00.json/keep.txt")
+		write("local/aaa.v1.count/keep.txt")
+		write("upload/0000-00-00.json/keep.txt")
+		vstats.Label("dataLikeDirs")
+	}
 	if rapid.Bool().Draw(t, "subdirs") {
 		write("local/sub/inner.json")
 		write("local/sub/inner.v1.count")
